@@ -610,6 +610,10 @@ impl Dup for VirtualSystem {
     fn dup(&self, from: Fd, to_min: Fd, flags: EnumSet<FdFlag>) -> Result<Fd> {
         let mut process = self.current_process_mut();
         let mut body = process.fds.get(&from).ok_or(Errno::EBADF)?.clone();
+        if !process.is_fd_below_limit(to_min) {
+            // POSIX fcntl(F_DUPFD): the argument is not less than OPEN_MAX
+            return Err(Errno::EINVAL);
+        }
         body.flags = flags;
         process.open_fd_ge(to_min, body).map_err(|_| Errno::EMFILE)
     }
